@@ -136,6 +136,45 @@ def check_penalize(h, tag, n, Ad, A, b, x, D, kw, eps):
         h.zero('%s:b[%d]' % (tag, i), bo[i] - ((x[i] / eps) if i in Dset else b[i]))
 
 
+def check_penalize_default(h, tag, n, Ad, A, b, x, D, kw, mask):
+    """Default penalty: epsilon = 1e-10 / max_{i in D} |A_ii|  (skipped by the caller when no diagonal entry of D is stored)."""
+    from skfem.utils import penalize
+    if h.sym_mode:
+        # this check runs without the NumPy proxy; np.linalg.norm(., inf) of symbolic entries needs it for this one call
+        import skfem.utils as U
+        from engine import symnp
+        real_np, U.np = U.np, symnp.PROXY
+        try:
+            Ao, bo = penalize(A, b, x=x, **kw)
+        finally:
+            U.np = real_np
+    else:
+        Ao, bo = penalize(A, b, x=x, **kw)
+    Do = dense(Ao, h)
+    Dset = sorted(int(d) for d in D)
+    # own maximum of the absolute values (forks on the signs and the order of the symbolic diagonal entries)
+    best = None
+    for i in Dset:
+        a = Ad[i, i]
+        a = -a if bool(a < 0) else a
+        if best is None or bool(a > best):
+            best = a
+    # 1 / epsilon with epsilon = 1e-10 / max|d|, formed from the SAME float literal as the library's (its binary value is not 10^-10)
+    if h.sym_mode:
+        h.assume(best > 0)
+        pen = 1.0 / (1e-10 / best)
+    else:
+        if not best > 0:
+            return
+        pen = 1.0 / (1e-10 / best)
+    scale = 1.0 if h.sym_mode else float(pen)
+    for i in range(n):
+        for j in range(n):
+            want = pen if (i == j and i in Dset) else Ad[i, j]
+            h.zero('%s:A[%d,%d]' % (tag, i, j), Do[i, j] - want, scale=scale)
+        h.zero('%s:b[%d]' % (tag, i), bo[i] - ((x[i] * pen) if i in Dset else b[i]), scale=scale)
+
+
 def check_condense(h, tag, n, Ad, A, b, x, y, D, I, kw):
     from skfem.utils import condense, solve
     snap = snapshot(h, A, b, x)
@@ -234,6 +273,8 @@ def pattern_config(h, n, bits, forms, want):
                         check_enforce_matrix_rhs(h, tag + ':enforce-M', n, Ad, A, Md, M, x, D, kw)
                 if 'penalize' in want:
                     check_penalize(h, tag + ':penalize', n, Ad, A, b, x, D, kw, eps)
+                    if vname == 'D' and len(D) and any(mask[i, i] for i in D) and n <= 2:
+                        check_penalize_default(h, tag + ':penalize-default-epsilon', n, Ad, A, b, x, D, kw, mask)
                 if 'condense' in want and 0 < len(D) < n or ('condense' in want and len(D) == 0):
                     check_condense(h, tag + ':condense', n, Ad, A, b, x, y, D, I, kw)
                     if vname == 'D':
@@ -336,7 +377,7 @@ META = dict(
     bounds=dict(sizes='n=2 all 16 patterns; n=3: 64 patterns quick (all 512 thorough); n=4: 24 random patterns (thorough); '
                       'DofsView/dict forms on a real 2-triangle P1/P2 basis',
                 index_sets='all subsets D (incl. empty and full), given as D, as I, and D in reversed order'),
-    outside=['default epsilon of penalize (uses np.linalg.norm)', 'LAPACK/SuperLU/ARPACK numerical solvers (stubbed as "any solution")',
+    outside=['default epsilon of penalize when no diagonal entry of the constrained rows is stored (division by zero) and for n = 3', 'dtype promotion (integer or complex operands: every array is an object array of reals here)', 'LAPACK/SuperLU/ARPACK numerical solvers (stubbed as "any solution")',
              'mpc', 'float rounding'],
     stubs=['linear solver -> returns symbolic y constrained only by "Aout y = bout"', 'eigen solver -> returns symbolic (L, X)'],
     assumptions=['SymCSR mirrors scipy.sparse.csr_matrix for copy/diagonal/setdiag/row+column fancy indexing/@/+ (validated differentially against scipy on every run)'],
